@@ -266,6 +266,32 @@ def gen_conv():
     out += "Definition float_datatype_rows : list (float * float * list N) := " + clist(
         rows, lambda r: f"({cfloat_hex(float(r[0]))}, {cfloat_hex(float(r[1]))}, {cstr(r[2])})") + ".\n"
     out += f"Definition float_datatype_default : list N := {cstr(dflt)}.\n"
+    # DataType.from_value: __DataTypeIndex__ (type -> member), __DataTypeInferIndex__ (type -> function)
+    def _type_map(name, val):
+        node = enums.const_node(name)
+        if not isinstance(node, ast.Dict):
+            _die(f"{name} is not a dict display")
+        rows_ = []
+        for k_, v_ in zip(node.keys, node.values):
+            rows_.append((_name(k_), val(v_)))
+        if len({k_ for k_, _ in rows_}) != len(rows_):
+            _die(f"{name}: duplicate key")
+        return rows_
+
+    def _member(v_):
+        if not (isinstance(v_, ast.Attribute) and _name(v_.value) == "DataType"):
+            _die("__DataTypeIndex__: value is not DataType.<member>")
+        return v_.attr
+    idx = _type_map("__DataTypeIndex__", _member)
+    inf = _type_map("__DataTypeInferIndex__", _name)
+    out += "Definition datatype_index : list (list N * list N) := " + clist(idx, lambda r: f"({cstr(r[0])}, {cstr(r[1])})") + ".\n"
+    out += "Definition datatype_infer : list (list N * list N) := " + clist(inf, lambda r: f"({cstr(r[0])}, {cstr(r[1])})") + ".\n"
+    fn = enums.func("from_type", "DataType")
+    dfl = [n for n in ast.walk(fn) if isinstance(n, ast.Call) and isinstance(n.func, ast.Attribute) and n.func.attr == "get"
+           and isinstance(n.func.value, ast.Name) and n.func.value.id == "__DataTypeIndex__" and len(n.args) == 2]
+    if len(dfl) != 1:
+        _die("DataType.from_type: expected __DataTypeIndex__.get(tp, DataType.<default>)")
+    out += f"Definition datatype_default : list N := {cstr(_member(dfl[0].args[1]))}.\n"
     nsm = enums.class_consts("Namespace")
     nrows = []
     for k, v in nsm.items():
